@@ -198,3 +198,66 @@ def canary(env):
         env.eq('trivially_false', X[3], X[3] + 1)
 
 from fractions import Fraction as Q
+
+
+@bounded('C01.float_accuracy', functions=[f'{OPS}:so3_Exp.forward', f'{OPS}:se3_Exp.forward', f'{OPS}:rxso3_Exp.forward', f'{OPS}:sim3_Exp.forward', f'{OPS}:rxso3_Ws', f'{OPS}:so3_Jl'])
+def float_accuracy(rng, tier):
+    """float32 / float64 Exp vs mpmath.expm (50 digits): rotation and scale blocks within 64 eps, translation block within
+    64 sqrt(eps) relative; every block magnitude from {0, 1e-30..1e-3, dense around eps and sqrt(eps), O(1), rotations up to 3 pi, |sigma| <= 8}"""
+    import torch, pypose as pp, mpmath
+    from contracts import floatacc as FA
+    N = 150 if tier == 'quick' else 1500
+    fails = []; evals = 0; samples = []; worst = {}
+    for g, G in (('so3', 'SO3'), ('se3', 'SE3'), ('rxso3', 'RxSO3'), ('sim3', 'Sim3')):
+        for dtype in (torch.float64, torch.float32):
+            eps = torch.finfo(dtype).eps
+            # directed probes of the corner regimes (recorded known findings are re-confirmed on every run)
+            probes = []
+            if g == 'sim3':
+                probes = [[0.3, -0.2, 0.5, 0.2 * eps, -0.5 * eps, 0.1 * eps, 1.7 * eps], [0.3, -0.2, 0.5, 0, 0.9 * eps, 0, -3.1 * eps],
+                          [0.3, -0.2, 0.5, 2 * eps, -3 * eps, 1 * eps, 2.5 * eps], [0.3, -0.2, 0.5, 40 * eps, 10 * eps, -20 * eps, 30 * eps]]
+            for k in range(N + len(probes)):
+                x = probes[k - N] if k >= N else FA.sample_algebra(rng, g, eps)
+                xt = torch.tensor(x, dtype=dtype)
+                xs = [float(v) for v in xt]                     # the value actually representable in dtype
+                X = pp.LieTensor(xt, ltype=getattr(pp, g + '_type')).Exp()
+                M = X.matrix().to(torch.float64)
+                ref = mpmath.expm(FA.hat_mp(g, xs))
+                evals += 1
+                n = 3
+                R = [[float(ref[i, j]) for j in range(n)] for i in range(n)]
+                Rn = max(1e-300, max(abs(v) for r in R for v in r))
+                err_r = max(abs(float(M[i, j]) - R[i][j]) for i in range(n) for j in range(n)) / Rn
+                q = X.tensor()[..., 3:7] if g in ('se3', 'sim3') else X.tensor()[..., 0:4]
+                err_q = abs(float(q.double().norm()) - 1.0)
+                tol_r = 64 * eps
+                key = (g, str(dtype).split('.')[-1])
+                rotv = xs[3:6] if g in ('se3', 'sim3') else xs[0:3]
+                th_ = math.sqrt(sum(v * v for v in rotv))
+                regime = ('theta>sqrt(eps)' if th_ > math.sqrt(eps) else ('theta in (eps,sqrt(eps)]' if th_ > eps else 'theta<=eps'))
+                if g in ('rxso3', 'sim3'):
+                    regime += ',|sigma|>eps' if abs(xs[-1]) > eps else ',|sigma|<=eps'
+                if err_r > tol_r or err_q > tol_r:
+                    fails.append(dict(clause='rotation_scale_block', signature=f'{g}/{key[1]}/{regime}', x=xs, err=err_r, unit_err=err_q, tol=tol_r))
+                if g in ('se3', 'sim3'):
+                    t = [float(ref[i, 3]) for i in range(3)]
+                    tn = max(abs(v) for v in t)
+                    if tn > 0:
+                        err_t = max(abs(float(M[i, 3]) - t[i]) for i in range(3)) / tn
+                        tol_t = 64 * math.sqrt(eps)
+                        worst[key] = max(worst.get(key, 0), err_t)
+                        if err_t > tol_t:
+                            fails.append(dict(clause='translation_block', signature=f'{g}/{key[1]}/{regime}', x=xs, err=err_t, tol=tol_t))
+                if k < 1: samples.append(dict(type=g, dtype=key[1], x=xs))
+    # keep one representative failure per (clause, signature), the worst one
+    best = {}
+    for f in fails:
+        kk = (f['clause'], f['signature'])
+        if kk not in best or f['err'] > best[kk]['err']: best[kk] = f
+    out = list(best.values())
+    for f in out: f['count'] = sum(1 for x in fails if (x['clause'], x['signature']) == (f['clause'], f['signature']))
+    return dict(evaluations=evals, distinct_nontrivial=evals, rule='per type and dtype: each block magnitude drawn independently from the stated set, random directions; all inputs distinct',
+                bound=f'{N} inputs per (type, dtype); tolerance 64 eps (rotation/scale), 64 sqrt(eps) (translation)', failures=out, samples=samples[:4],
+                worst_translation_error={f'{a}/{b}': v for (a, b), v in worst.items()})
+
+import math
